@@ -74,8 +74,9 @@ func (k FaultKind) IsItems() (int, bool, bool, bool) {
 	return i / 4, i&1 != 0, i&2 != 0, true
 }
 
-// Aborts: kinds after which MergeValues fails with ErrMergeDifferentTypes and the whole resolve returns an error
-// (finding wrong-kind-data-aborts-response): `_entities` items of a wrong kind, `data` of a wrong kind on a root fetch.
+// Aborts: kinds after which MergeValues USED TO fail with ErrMergeDifferentTypes and the whole resolve returned an error
+// (wrong-kind-data-aborts-response, repaired eb6ed70: reported as an invalid response of the subgraph): `_entities` items of a
+// wrong kind, `data` of a wrong kind on a root fetch.
 func (k FaultKind) Aborts(fk FKind) bool {
 	if _, _, _, ok := k.IsItems(); ok {
 		return true
